@@ -252,6 +252,17 @@ func F2(thorough bool) []*Program {
 				fn("NewTT", nil, []string{"*ttemplate.Template"}, false),
 				fn("NewT0", []string{"*ttemplate.Template", "*htemplate.Template"}, []string{"*T0"}, false),
 			}}}})
+	// result types without a nil value (struct value, named string) in injectors with goroutines
+	for _, req := range []string{"T0", "V0"} {
+		for _, e := range []bool{false, true} {
+			add(&Program{Desc: fmt.Sprintf("value-typed result %s err=%v", req, e), Types: typeNames(3), Consts: []string{"type V0 string"}, Decls: []Decl{{
+				Name: "InitP", Request: req, Provs: []Prov{
+					fn("NewT1", nil, []string{"*T1"}, e),
+					fn("NewT2", nil, []string{"*T2"}, false),
+					fn("NewR", []string{"*T1", "*T2"}, []string{req}, false),
+				}}}})
+		}
+	}
 	// Bind written around Async
 	add(&Program{Desc: "bind-outside-async", Types: typeNames(3), Ifaces: map[string]string{"I0": "T1"}, Decls: []Decl{{
 		Name: "InitP", Request: "*T0", Provs: []Prov{
